@@ -11,6 +11,7 @@ import Drivers.ReimbD
 import Drivers.WasmD
 import Drivers.OracleParamsD
 import Drivers.ShieldParamsD
+import Drivers.GovParamsD
 import Drivers.BlockhashD
 /-
   Chain driver: reads the trace of the real application (one JSON object per line),
@@ -1074,6 +1075,15 @@ partial def loop (hIn : IO.FS.Stream) (ds : DS) : IO DS := do
         let mut ds := ds
         for k in r.stats do ds := stat ds (if k.startsWith "mon." then k else "sit." ++ k)
         ds := { ds with stats := bump ds.stats "tx.shield.paramchange.ok" 1 }
+        for (kind, props, name, detail) in r.findings do
+          ds ← finding ds kind props name detail
+        pure ds
+      | "gparams" => do
+        -- C08: the gov tally parameters changed by the real parameter-change handler, then the real end-blocker (profile "govparams")
+        let r := GovParamsD.check j
+        let mut ds := ds
+        for k in r.stats do ds := stat ds ("sit." ++ k)
+        ds := { ds with stats := bump ds.stats "tx.gov.paramchange.ok" 1 }
         for (kind, props, name, detail) in r.findings do
           ds ← finding ds kind props name detail
         pure ds
